@@ -138,6 +138,8 @@ def classify(component, what, case):
         return "F320"
     if law in ("iff-rejected", "tag") and case.get("impl_kind") == "DupCase" and "empty-np-container-next-to-other-case" in feat:
         return "F321"
+    if law == "f322":
+        return "F322"
     return None
 
 
@@ -152,6 +154,7 @@ def run(cx, nsch=None, nnest=None, nfam=None):
     schemas, cases = [], load_corpus(cx)
     witness_f320(cx, cases)
     compiler_guarantee(cx)
+    witness_f322(cx)
     # F321 witness (an empty non-presence container of one case next to data of another case), one more case on every run: the
     # unrepaired lyd_validate_cases rejects it (DupCase) and so does the model (Quirks.casesCountDefault read off the source), the
     # specification is satisfied -> law iff fails, classify() names F321; repaired: both accept, the container is removed
@@ -222,6 +225,43 @@ def witness_f320(cx, cases):
                 dict(vc.schema_payload(s), law="f320-compile", features=features(s)))
 
 
+def f322_fixed():
+    """read off the C source: does lyd_validate_must ignore the missing LYD_WHEN_TRUE of nodes kept by an operational validation (fixes/F322.diff)?"""
+    try:
+        return "a false one is only a warning for operational data" in open(os.path.join(paths.REPO, "src", "validation.c")).read()
+    except OSError:
+        return False
+
+
+def witness_f322(cx):
+    """F322 (a must that looks at a node kept in spite of its false `when` under LYD_VALIDATE_OPERATIONAL), replayed on every run through
+    the harness only (op `valx`, options 8).  Unrepaired source: libyang answers `invalid … Other` (the LY_EINCOMPLETE of the must logged
+    as an error) — reported with law `f322`, which `classify` names.  Repaired source: the instance is accepted."""
+    s, t = vg.witness_f322()
+    s._origin = "witness-F322"
+    line = "f322 %s valx %s %s %d %s" % (COMP, tg.hx(s.dsl()), tg.hx(s.xdsl()), OPER, tg.tok(t))
+    r = vc.run_impl(cx, HARNESS, [s], [line]).get("f322", ["err", "NoReply"])
+    if r[:2] == ["err", "Crash"]:
+        return
+    fixed = f322_fixed()
+    cx.rule("F322 witness (presence container with a false when and a must on its own default leaf, validated with LYD_VALIDATE_OPERATIONAL): "
+            + ("this source tree evaluates the must of operational data whatever LYD_WHEN_TRUE says; the instance must be accepted" if fixed
+               else "this source tree stops the must with 'when … has not been evaluated'"))
+    bad = r[:2] == ["ok", "invalid"] and any(vc.dec_err(e)[0] == "Other" for e in r[3:])
+    if r[:2] == ["ok", "valid"]:
+        cx.count(("f322", s.name), True, "F322 witness accepted under OPERATIONAL")
+        if not fixed:
+            cx.notes.append("F322: the source has not the text of fixes/F322.diff but the witness is accepted")
+    elif bad and not fixed:
+        cx.count(("f322", s.name), True, "F322 witness rejected (unrepaired source)")
+        cx.fail(COMP, "a must on a node kept with a false when under LYD_VALIDATE_OPERATIONAL aborts: " + " ".join(r[:4]),
+                dict(vc.schema_payload(s), law="f322", opts=OPER, dump=tg.tok(t), reply=r[:5]))
+    else:
+        cx.count(("f322", s.name), True, "F322 witness: unexpected reply")
+        cx.fail(COMP, "F322 witness under LYD_VALIDATE_OPERATIONAL: unexpected reply %s (source %s)" % (" ".join(r[:4]), "repaired" if fixed else "unrepaired"),
+                dict(vc.schema_payload(s), law="f322-unexpected", opts=OPER, dump=tg.tok(t), reply=r[:5]))
+
+
 def compiler_guarantee(cx):
     """law `compiler-guarantee`: what the schema hypotheses of the Lean theorems exclude, lys_compile refuses (schema registrations only;
     the harness answers `err BadSchema` for a module it cannot compile, `ok <n> <summary>` otherwise)"""
@@ -264,6 +304,7 @@ XP_WHEN_EMPTY_NP = False
 
 
 XP_SPECX = True
+XP_SPECW = True
 
 
 def has_when(s):
@@ -299,9 +340,65 @@ def xp_laws(cx, c, ri, spec):
                 cx.fail(COMP, "error-app-tag %s on a %s error (RFC 7950: %s)" % (tag, k, APPTAG.get(k)), payload(c, "apptag", opts=o, impl_kind=k))
 
 
+
+def xp_when_laws(cx, c, ri, specw):
+    """the iff / tag laws for schemas WITH a `when` (model op `specw`), the statement of `validate_ok_iff_valid_when_decidable` /
+    `validate_error_tag_when_partial`: on the class `whenNoTouchB`, for runs in which no implicit node is removed because of its `when`,
+    libyang accepts iff no family of `violationsX` is violated and every `when` of the accessible tree holds; a NoWhen error implies that
+    some `when` of that tree is not true; any other error names a violated family"""
+    for o in xp_opts(c.s):
+        if o & (OPER | MULTI):
+            continue
+        r = ri.get("x%d.%d" % (c.k, o), ["err", "NoReply"])
+        if r[0] != "ok" or r[1] == "build":
+            continue
+        sp = specw.get("w%d.%d" % (c.k, o), ["err", "NoReply"])
+        if sp[0] != "ok" or "|" not in sp:
+            cx.notes.append("specw op failed: %s" % " ".join(sp[:3]))
+            cx.dist["xpath-when-law:specw failed"] += 1
+            continue
+        bar = sp.index("|")
+        viol = set(sp[2:bar])
+        notouch, allhold, deleted = [b == "1" for b in sp[bar + 1:bar + 4]]
+        accepted = r[1] == "valid"
+        if not notouch:
+            cx.dist["xpath-when-law:outside the class (a when reaches a when-node)"] += 1
+            continue
+        if deleted:
+            cx.dist["xpath-when-law:outside (an implicit node with a false when is removed): " + ("accept" if accepted else "reject")] += 1
+            continue
+        cx.count(("xpwhenlaw", c.s.name, tg.tok(c.t), o), True, "xpath-when-law:" + ("accept" if accepted else "reject") +
+                 (", every when true" if allhold else ", some when false"))
+        if accepted and (viol or not allhold):
+            cx.fail(COMP, "libyang accepts an instance that violates the schema: " + ",".join(sorted(viol) + ([] if allhold else ["a when is false"])),
+                    payload(c, "when-iff-accepted", opts=o, spec=sorted(viol), allhold=allhold))
+        elif not accepted:
+            k, tag, path = first_err(r)
+            k2 = "NoMust" if k == "Other" else k
+            if not viol and allhold:
+                cx.fail(COMP, "libyang rejects an instance that satisfies every constraint and every when of the schema (%s)" % k,
+                        payload(c, "when-iff-rejected", opts=o, impl_kind=k, impl_path=path))
+            elif k == "NoWhen":
+                if allhold:
+                    cx.fail(COMP, "NoWhen reported but every when of the accessible tree is true", payload(c, "when-tag", opts=o, impl_path=path))
+            elif k2 not in viol and not (k == "Other" and not allhold):
+                cx.fail(COMP, "the reported error (%s) is not a constraint the instance violates (%s)" % (k, ",".join(sorted(viol))),
+                        payload(c, "when-tag", opts=o, impl_kind=k, spec=sorted(viol)))
+
+
+# with fixes/F322.diff in the source (lyd_validate_must ignores the missing LYD_WHEN_TRUE of nodes kept by an operational validation)
+# schemas with a when also run under LYD_VALIDATE_OPERATIONAL
+XP_WHEN_OPER_FIXED = True
+_F322 = []
+
+
 def xp_opts(s):
     if XP_WHEN_CONTINUE or not has_when(s):
         return XP_OPTS
+    if not _F322:
+        _F322.append(bool(f322_fixed()))
+    if XP_WHEN_OPER_FIXED and _F322[0]:
+        return [0, PRESENT, OPER]
     return [0, PRESENT]
 XP_OPTS = [0, PRESENT, MULTI, OPER]
 # OPEN DISAGREEMENT (reported): with two instances of one leaf (mutation dup-leaf, seen under MULTI_ERROR where validation goes on
@@ -316,13 +413,13 @@ def xpath_family(cx, nsch=None, verbose=0):
     left to chance), each also with the mutations break-must / break-leafref and a few of the old ones.  The specification op does not
     know these statements, so no iff / tag law here: the tie is the correspondence `valx` (same request line to harness and model)."""
     rng = cx.sub_rng("xpath")
-    n = cx.n(6, 40) if nsch is None else nsch
+    n = cx.n(8, 40) if nsch is None else nsch
     per = cx.n(5, 15)
     schemas, cases = [], []
     from checks import c08
     mask = c08.live_mask(cx)      # the XPath engine of the model mirrors exactly the deviations still listed as `known` (C08)
     for i in range(n):
-        s = vg.fam_xpath(rng, i, nwhen=(rng.choice([0, 1, 1]) if XP_WHEN else 0))
+        s = vg.fam_xpath(rng, i, nwhen=(rng.choice([1, 1, 2]) if XP_WHEN else 0))
         s._origin = "xpath"
         s.xpmask = mask
         schemas.append(s)
@@ -371,6 +468,23 @@ def xpath_family(cx, nsch=None, verbose=0):
     for c in cases:
         if XP_SPECX and not has_when(c.s):
             xp_laws(cx, c, ri, spec)
+    # (W) the same for schemas with a `when` (model op `specw`): the iff with `when` on the class of the theorem
+    wl = []
+    for c in cases:
+        if XP_SPECW and has_when(c.s):
+            d, x = tg.hx(c.s.dsl()), tg.hx(c.s.xdsl())
+            for o in xp_opts(c.s):
+                if not o & (MULTI | OPER):
+                    wl.append("w%d.%d %s specw %s %s %d %s" % (c.k, o, COMP, d, x, o, tg.tok(c.t)))
+    specw = cx.run_model(vc.heads(schemas) + wl) if wl else {}
+    for c in cases:
+        if XP_SPECW and has_when(c.s):
+            xp_when_laws(cx, c, ri, specw)
+    if wl:
+        wd = {k[len("xpath-when-law:"):]: v for k, v in cx.dist.items() if k.startswith("xpath-when-law:")}
+        cx.rule("when-iff (validate_ok_iff_valid_when_decidable / validate_error_tag_when_partial against libyang, model op specw; class "
+                "condition whenNoTouchB, runs that remove no implicit node): %d cases x option sets: %s" % (
+                    len(wl), ", ".join("%s %d" % kv for kv in sorted(wd.items()))))
     mix = collections.Counter()
     for c in cases:
         a = ri.get("x%d.0" % c.k, ["err", "NoReply"])
@@ -394,6 +508,8 @@ def xpath_family(cx, nsch=None, verbose=0):
                         " ".join(r)[:600]))
             elif o == OPER:
                 cx.dist["valx:operational:" + r[1]] += 1
+                if has_when(c.s):
+                    cx.dist["valx:operational, schema with a when:" + (r[1] if r[1] != "invalid" else "invalid " + first_err(r)[0])] += 1
     cx._xp_schemas = schemas
     cnt = [vg.xp_counts(s) for s in schemas]
     text = ("xpath family (%s): %d schemas with %d must, %d leafref (%d with a key predicate), %d when; %d instances; first error at option 0 "
